@@ -4,7 +4,7 @@
    correspondence check ties it to the code on every run. *)
 From Coq Require Import List Arith.
 Import ListNotations.
-From TarpcV Require Import PerKey PerKeyProofs.
+From TarpcV Require Import PerKey PerKeyProofs PerKeyRace PerKeyRaceProofs.
 
 (* for every n >= 1 and every sequence of arrivals, closes, polls and listener end:
    the monitor (never more than n alive per key at a yield; a shed only with exactly n alive;
@@ -35,7 +35,56 @@ Example C13_nonvacuous :
   = [[]; [OYield 0 7]; []; [OShed 7; OPending]; []; [OPending]; []; [OYield 1 7]].
 Proof. vm_compute. reflexivity. Qed.
 
+(* ---- concurrent channel drops (PerKeyRace.v): other threads drop TrackedChannels between the
+   atomic actions of the listener task (read strong_count, Weak::upgrade, receive a notification,
+   examine the entry); every op list = every interleaving.  No harness: thread races are not
+   reproducible deterministically; assumed: strong_count()/upgrade() are each atomic, upgrade()
+   succeeds iff the count is > 0 at that instant, Tracker::drop runs exactly when the count reaches 0,
+   dropped_keys is linearizable, only the listener task touches key_counts (Pin<&mut Self>). ---- *)
+Theorem C13_race_alive_le_n : forall n ops k, 1 <= n ->
+  alive k (chans (rb (snd (rrun n ops)))) <= n.
+Proof. exact race_alive_le_n. Qed.
+
+Theorem C13_race_monitor : forall n ops, 1 <= n ->
+  c13_ok n (map to_op ops) (decision_view (fst (rrun n ops))) = true.
+Proof. exact race_monitor_decision. Qed.
+
+(* a shed is decided only on a count of n read in the state the deciding action ran in *)
+Theorem C13_race_shed_only_if_was_full : forall n pre o k, 1 <= n ->
+  let s := snd (rrun n pre) in
+  In (OShed k) (fst (snd (rstep s o))) -> alive k (chans (rb s)) = n.
+Proof. exact race_shed_only_if_was_full. Qed.
+
+(* the sequential clause "n alive when the shed is observed" is false under the race if the shed is
+   observed when poll_next finishes the iteration: conservative, never over the limit *)
+Theorem C13_race_shed_at_report_refuted :
+  c13_ok 1 (map to_op race_witness) (report_view (fst (rrun 1 race_witness))) = false
+  /\ c13_ok 1 (map to_op race_witness) (decision_view (fst (rrun 1 race_witness))) = true
+  /\ report_view (fst (rrun 1 race_witness)) = [[]; []; [OYield 0 7]; []; []; []; []; [OShed 7]]
+  /\ alive 7 (chans (rb (snd (rrun 1 race_witness)))) = 0.
+Proof. exact race_shed_at_report_refuted. Qed.
+
+Theorem C13_race_accept_below_n : forall n ops k, 1 <= n ->
+  let s := snd (rrun n ops) in
+  pc s = PcIdle \/ pc s = PcLoop ->
+  hd_error (arrivals (rb s)) = Some k -> alive k (chans (rb s)) < n ->
+  (exists cid, fst (snd (rstep s RListener)) = [OYield cid k])
+  \/ (exists t, pc (fst (rstep s RListener)) = PcUpgrade k t).
+Proof. exact race_accept_below_n. Qed.
+
+Theorem C13_race_accept_after_read : forall env s k t,
+  pc s = PcUpgrade k t -> (forall o, In o env -> o <> RListener) ->
+  let s1 := snd (rrun_from s env) in
+  pc s1 = PcUpgrade k t /\ fst (snd (rstep s1 RListener)) = [OYield (next_cid (rb s1)) k].
+Proof. exact race_accept_after_read. Qed.
+
 Print Assumptions C13_monitor.
 Print Assumptions C13_alive_le_n.
 Print Assumptions C13_accept_below_n.
 Print Assumptions C13_prefix_refuted.
+Print Assumptions C13_race_alive_le_n.
+Print Assumptions C13_race_monitor.
+Print Assumptions C13_race_shed_only_if_was_full.
+Print Assumptions C13_race_shed_at_report_refuted.
+Print Assumptions C13_race_accept_below_n.
+Print Assumptions C13_race_accept_after_read.
